@@ -76,6 +76,7 @@ def _min_depths(s):
 
 STR_LENS = [0, 1, 2, 3, 4, 5, 7, 8, 252, 253, 254, 255, 256, 257, 1000]
 CHARS = 'abcXYZ019 _-./:éЖ中\U0001F600'
+EDGE_CHARS = ['\ufeff', '\x00', ' ', '\n', '\t', '\r', '\u2028', '\u0301', '\u200f', '\ufffe', '\x7f', '\xa0']
 
 
 class Gen:
@@ -95,13 +96,29 @@ class Gen:
         rng = self.rng
         while True:
             parts, total = [], 0
-            while total < nbytes:
+            # text is any sequence of code points: some start or end with the ones codecs and tidy-minded parsers like to eat
+            # (byte-order mark, NUL, white space, line separators, a combining mark with nothing to combine with)
+            edge = rng.random()
+            first = rng.choice(EDGE_CHARS) if edge < 0.25 else None
+            last = rng.choice(EDGE_CHARS) if 0.15 < edge < 0.35 else None
+            if first and len(first.encode()) <= nbytes:
+                parts.append(first)
+                total += len(first.encode())
+                self.tags.add('text-starts-with-U+%04X' % ord(first))
+            room = len(last.encode()) if last else 0
+            if last and total + room <= nbytes:
+                nbytes_body = nbytes - room
+            else:
+                last, nbytes_body = None, nbytes
+            while total < nbytes_body:
                 ch = rng.choice(CHARS)
                 n = len(ch.encode())
-                if total + n > nbytes:
+                if total + n > nbytes_body:
                     ch, n = 'a', 1
                 parts.append(ch)
                 total += n
+            if last:
+                parts.append(last)
             s = ''.join(parts)
             if s.encode()[:4] not in self.bad_prefixes:
                 return s
